@@ -113,6 +113,10 @@ def run(res, replay=None):
     go_ok = standard_build(res)
     if not go_ok:
         return
+    # catalog persistence model (Model/CatalogRows.v, theorems of Props/C10Catalog.v) against the engine's two catalog heaps and
+    # its by-name / by-oid maps over histories of CREATE TABLE (SQL and catalog API) and clean restarts (lib/catcorr.py, verifharness catrows)
+    import catcorr
+    catcorr.run_corr(res, random.Random(res.seed * 7919 + 10), 40 if res.tier == "quick" else 600)
     rng = random.Random(res.seed)
     # corpus: the fixed defect F-CAT-OID (create two tables, restart, create a third, read the first)
     m = Mirror(random.Random(7))
